@@ -27,6 +27,16 @@ def comparator_direction(cb):
     r, a = recv[0], arg[0]
     if r.fields[-1:] != a.fields[-1:]:
         return None, None
+    fname = r.fields[-1] if r.fields else None
+    if fname is None:
+        # ordering key computed by a method of the element: use the outermost method name
+        k0, k1 = c.args[0], c.args[1]
+        while k0.kind == 'call' and k0.name.rsplit('::', 1)[-1] in ('unwrap', 'as_ref', 'deref', 'clone', 'expect'):
+            k0 = k0.args[0]
+        while k1.kind == 'call' and k1.name.rsplit('::', 1)[-1] in ('unwrap', 'as_ref', 'deref', 'clone', 'expect'):
+            k1 = k1.args[0]
+        if k0.kind == 'call' and k1.kind == 'call' and k0.name == k1.name:
+            fname = k0.name.rsplit('::', 1)[-1]
     rev = any(x.kind == 'call' and x.name.endswith('::reverse') for x in e.walk())
     if r.root == ('param', 2) and a.root == ('param', 3):
         d = 'asc'
@@ -36,7 +46,7 @@ def comparator_direction(cb):
         return None, None
     if rev:
         d = 'asc' if d == 'desc' else 'desc'
-    return d, (r.fields[-1] if r.fields else None)
+    return d, fname
 
 
 def _upvar_uses(cb, k):
